@@ -10,6 +10,8 @@ Require Import UPV.Compilers.LayerA_Defs UPV.Compilers.LayerA_Quant UPV.Compiler
 Require Import UPV.Planning.Ground UPV.Compilers.LayerA_Ground.
 Require Import UPV.Compilers.LayerA_Pipe UPV.Proofs.LayerA_Pipe_proofs.
 Require Import UPV.Compilers.LayerA_DcrGoal UPV.Proofs.LayerA_DcrGoal_proofs.
+Require Import UPV.Compilers.LayerA_Inv UPV.Compilers.LayerA_Utfr UPV.Proofs.LayerA_Utfr_proofs UPV.Proofs.LayerA_base.
+Require UPV.Props.C06.
 Local Open Scope nat_scope.
 
 (* ---------------------------------------------------------------- PART 1: pipelines (CompilersPipeline).
@@ -472,5 +474,171 @@ Proof.
   split; [vm_compute; reflexivity|]. split; [exact LQ.effs|]. split; [exact LQ.G_step|]. split; [exact LQ.pre|].
   split; [exact LQ.goals|]. split; [split; [exists false | exists false]; reflexivity|].
   split; [intros f x Hf; unfold with_fk; apply N.eqb_neq in Hf; rewrite Hf; reflexivity|].
+  repeat split; vm_compute; reflexivity.
+Qed.
+
+(* ---------------------------------------------------------------- non-vacuity of the round-3/4 theorems *)
+(* "pipeline:usertype+quantifiers+disjunctive" on the problem LQ.Pd (goal a or b): ALL THREE premises of
+   C06_LA_pipe_uqd_sound / C07_LA_pipe_uqd_certified hold.  The intermediate problems: UsertypeFluentsRemover (no object
+   fluent here) rebuilds every effect condition as And(true, true); QuantifiersRemover changes nothing more; the
+   disjunctive goal then needs the fake goal fluent. *)
+Module LU.
+  Definition idf (e : expr) : expr := e.
+  Lemma idf_exact : smp_exact idf. Proof. intros e I. reflexivity. Qed.
+  Definition P0 : problem := LQ.Pd.
+  Definition P1 : problem := utfr_compile idf idf P0.
+  Definition P2 : problem := quant_compile idf P1.
+  Definition G : state -> Prop := LQ.G.
+  Definition tau (v : N) : N := 0%N.
+
+  Lemma G_step P (Hb0 : is_bool_fluent P 0%N = true) (Hb1 : is_bool_fluent P 1%N = true) :
+    forall s aid a args t, G s -> lookup_action P aid = Some a -> spec_step false P s a args = Some t -> G t.
+  Proof.
+    intros s aid a args t [[x Hx] [y Hy]] _ ES. rewrite LayerA_base.spec_step_eq in ES.
+    destruct (negb _); [discriminate|]. destruct (fired _ _ _) as [acts|]; [|discriminate].
+    destruct (negb _); [discriminate|]. destruct (invariants_ok _ _ _); [|discriminate]. inversion ES; subst t. split.
+    - unfold spec_succ, spec_fluent. cbn [fst snd]. rewrite Hb0, Hx.
+      destruct (avals (0%N, []) acts), (deltas (0%N, []) acts); cbn; eauto.
+    - unfold spec_succ, spec_fluent. cbn [fst snd]. rewrite Hb1, Hy.
+      destruct (avals (1%N, []) acts), (deltas (1%N, []) acts); cbn; eauto.
+  Qed.
+
+  (* ---- stage 1: UsertypeFluentsRemover *)
+  Lemma no_obj f : otype P0 f = None.
+  Proof. reflexivity. Qed.
+
+  Lemma utfr_hyps :
+    utfr_wf idf idf P0 = true /\ tr_ok idf P0 /\ effects_defined P0 G /\ LayerA_Utfr.one_value P0 G /\ closed P0 G /\
+    unique_ids P0.
+  Proof.
+    split; [vm_compute; reflexivity|]. split.
+    { apply tr_ok_id. intros e He. vm_compute in He. destruct He as [<-|[<-|[<-|[]]]]; reflexivity. }
+    split.
+    { intros s i a args e _ Ha He _. destruct Ha as [Ha|[Ha|[]]]; inversion Ha; subst; destruct He as [<-|[]];
+        (split; [exists []; reflexivity|]); (split; [exists true; reflexivity|]); exists (VBool true);
+        (split; [reflexivity|]); cbn; exists true; reflexivity. }
+    split; [intros s i a args acts f t x v1 v2 _ _ _ Hf; rewrite no_obj in Hf; discriminate|].
+    split; [exact (G_step P0 eq_refl eq_refl)|]. repeat constructor; cbn; intuition discriminate.
+  Qed.
+
+  (* ---- stage 2: QuantifiersRemover *)
+  Lemma quant_hyps : unique_ids P1 /\ problem_wf P1 tau = true /\ no_action_dropped idf P1.
+  Proof.
+    split; [vm_compute; repeat constructor; cbn; intuition discriminate|]. split; [vm_compute; reflexivity|].
+    intros aid a H. vm_compute in H. destruct H as [H|[H|[]]]; inversion H; subst; vm_compute; discriminate.
+  Qed.
+
+  (* ---- stage 3: DisjunctiveConditionsRemover with the disjunctive goal *)
+  Lemma effs2 : forall s args i a, G s -> In (i, a) (p_actions P2) -> Forall (dnf_effect_ok LQ.cd P2 s a args) (a_effs a).
+  Proof.
+    intros s args i a _ H. vm_compute in H. destruct H as [H|[H|[]]]; inversion H; subst; repeat constructor; cbn;
+      try discriminate; try reflexivity; try (exists true; reflexivity); intros d [<-|[]]; exists true; reflexivity.
+  Qed.
+
+  Lemma pre2 : forall s args i a, G s -> In (i, a) (p_actions P2) ->
+    existsb (all_hold false (mk_interp P2 s (zip_params (a_params a) args))) (LQ.pd a) =
+    all_hold false (mk_interp P2 s (zip_params (a_params a) args)) (a_pre a).
+  Proof. intros s args i a _ _. unfold LQ.pd. cbn [existsb]. apply orb_false_r. Qed.
+
+  Lemma goals2 : forall s, G s ->
+    existsb (all_hold false (mk_interp P2 s [])) LQ.gds = all_hold false (mk_interp P2 s []) (p_goals P2).
+  Proof. intros s [[x Hx] [y Hy]]. cbn. unfold holds. cbn. rewrite Hx, Hy. destruct x, y; reflexivity. Qed.
+
+  Lemma conf2 : forall s args i a d, G s -> In (i, a) (p_actions P2) -> In d (LQ.pd a) ->
+    add_effs_ok [] [] (a_effs (dnf_variant LQ.cd a d)) = false ->
+    all_hold false (mk_interp P2 s (zip_params (a_params a) args)) d = true -> applicable P2 s a args = false.
+  Proof.
+    intros s args i a d _ H Hd Hc. vm_compute in H. destruct H as [H|[H|[]]]; inversion H; subst;
+      destruct Hd as [<-|[]]; vm_compute in Hc; discriminate.
+  Qed.
+
+  Definition stages : list stage := uqd_stages idf idf G idf LQ.cd LQ.pd LQ.nm LQ.fk LQ.gnm LQ.gds G P0.
+  Definition P3 : problem := uqd_dst idf idf idf LQ.cd LQ.pd LQ.nm LQ.fk LQ.gnm LQ.gds P0.
+
+  Lemma all_certified : Forall certified stages.
+  Proof.
+    destruct utfr_hyps as (U1 & U2 & U3 & U4 & U5 & U6). destruct quant_hyps as (Q1 & Q2 & Q3).
+    constructor; [exact (utfr_stage_certified idf idf P0 G _ idf_exact U1 U2 U3 U4 U5 U6)|].
+    constructor; [exact (quant_stage_certified idf idf_exact P1 tau Q1 Q2 Q3)|].
+    constructor; [|constructor].
+    apply (dcrg_stage_certified LQ.cd LQ.pd LQ.nm LQ.fk LQ.gnm LQ.gds P2).
+    - vm_compute; repeat constructor; cbn; intuition discriminate.
+    - vm_compute; repeat constructor; cbn; intuition discriminate.
+    - vm_compute; reflexivity.
+    - vm_compute; reflexivity.
+    - exact (G_step P2 eq_refl eq_refl).
+    - exact effs2.
+    - exact pre2.
+    - exact goals2.
+    - exact conf2.
+  Qed.
+End LU.
+
+Example C06_LA_pipe_uqd_sound_nonvacuous :
+  Forall stage_sound LU.stages /\ linked LU.stages LU.P3 /\
+  map fst (p_actions LU.P3) = [20%N; 30%N; 40%N; 41%N] /\
+  valid_plan false LU.P3 (with_fk LQ.fk LQ.s0) [(30%N, []); (41%N, [])] = true /\
+  pback (pipeline_back LU.stages) [(30%N, []); (41%N, [])] = [(1%N, [])] /\
+  valid_plan false LU.P0 LQ.s0 [(1%N, [])] = true.
+Proof.
+  split; [eapply Forall_impl; [|exact LU.all_certified]; intros st H; exact (cs_sound st H)|].
+  split; [exact (uqd_linked LU.idf LU.idf LU.idf LU.G LU.G LQ.cd LQ.pd LQ.nm LQ.fk LQ.gnm LQ.gds LU.P0)|].
+  repeat split; vm_compute; reflexivity.
+Qed.
+
+(* the fake-goal compile as a stage on LQ.Pd itself: every premise of C06_LA_pipe_dcrg_stage_sound /
+   C07_LA_pipe_dcrg_stage_certified holds, and the compiled initial state is related to the original one *)
+Lemma LQ_conf : forall s args i a d, LQ.G s -> In (i, a) (p_actions LQ.Pd) -> In d (LQ.pd a) ->
+  add_effs_ok [] [] (a_effs (dnf_variant LQ.cd a d)) = false ->
+  all_hold false (mk_interp LQ.Pd s (zip_params (a_params a) args)) d = true -> applicable LQ.Pd s a args = false.
+Proof.
+  intros s args i a d _ H Hd Hc. destruct H as [H|[H|[]]]; inversion H; subst;
+    destruct Hd as [<-|[]]; vm_compute in Hc; discriminate.
+Qed.
+
+Example C06_LA_pipe_dcrg_stage_sound_nonvacuous :
+  orig_no_fk LQ.fk LQ.Pd = true /\
+  certified (dcrg_stage LQ.cd LQ.pd LQ.nm LQ.fk LQ.gnm LQ.gds LQ.G LQ.Pd) /\
+  st_aux (dcrg_stage LQ.cd LQ.pd LQ.nm LQ.fk LQ.gnm LQ.gds LQ.G LQ.Pd) = 1 /\
+  dcrg_rel LQ.fk LQ.G LQ.Pd LQ.s0 (with_fk LQ.fk LQ.s0).
+Proof.
+  split; [vm_compute; reflexivity|]. split; [|split; [reflexivity|]].
+  - apply (dcrg_stage_certified LQ.cd LQ.pd LQ.nm LQ.fk LQ.gnm LQ.gds LQ.Pd).
+    + repeat constructor; cbn; intuition discriminate.
+    + vm_compute; repeat constructor; cbn; intuition discriminate.
+    + vm_compute; reflexivity.
+    + vm_compute; reflexivity.
+    + exact LQ.G_step.
+    + exact LQ.effs.
+    + exact LQ.pre.
+    + exact LQ.goals.
+    + exact LQ_conf.
+  - apply dcrg_rel_init; [split; [exists false | exists false]; reflexivity | vm_compute; reflexivity].
+Qed.
+
+(* BoundedTypesRemover -> ConditionalEffectsRemover on C06.LB.Pi (x bounded in [0, 2]; no conditional effect, so the
+   second stage keeps the actions): every hypothesis of C06_LA_pipe_btr_cer_sound holds *)
+Module LBC.
+  Definition G (s : state) : Prop := True.
+  Definition P1 : problem := btr_compile C06.LA.idsmp C06.LB.Pi.
+  Definition P2 : problem := cer_compile LP.sp LP.nm P1.
+  Lemma cond : forall s args i a, G s -> In (i, a) (p_actions P1) -> Forall (cond_ok P1 s a args) (cond_effs (a_effs a)).
+  Proof.
+    intros s args i a _ H. vm_compute in H. destruct H as [H|[H|[H|[]]]]; inversion H; subst; constructor.
+  Qed.
+End LBC.
+
+Example C06_LA_pipe_btr_cer_sound_nonvacuous :
+  smp_holds C06.LA.idsmp /\ unique_ids C06.LB.Pi /\ unique_ids LBC.P1 /\ simp_pre_ok LP.sp /\ unique_ids LBC.P2 /\
+  (forall s args i a, LBC.G s -> In (i, a) (p_actions LBC.P1) -> Forall (cond_ok LBC.P1 s a args) (cond_effs (a_effs a))) /\
+  valid_plan false LBC.P2 C06.LB.si [(2%N, []); (0%N, [])] = true /\
+  pback (pipeline_back (bc_stages C06.LA.idsmp LP.sp LP.nm LBC.G C06.LB.Pi)) [(2%N, []); (0%N, [])] = [(2%N, []); (0%N, [])] /\
+  valid_plan false C06.LB.Pi C06.LB.si [(2%N, []); (0%N, [])] = true /\
+  (* three increases leave the bounds: rejected by both *)
+  valid_plan false LBC.P2 C06.LB.si [(2%N, []); (2%N, []); (0%N, [])] = false.
+Proof.
+  split; [exact C06.LA.idsmp_holds|]. split; [exact C06.LB.uniq|].
+  split; [vm_compute; repeat constructor; cbn; intuition discriminate|]. split; [exact LP.sp_ok|].
+  split; [vm_compute; repeat constructor; cbn; intuition discriminate|]. split; [exact LBC.cond|].
   repeat split; vm_compute; reflexivity.
 Qed.
